@@ -2,6 +2,7 @@
 import ast
 import math
 import os
+import re
 
 from harness import core, py2lean, instantiate
 from harness.core import Outcome, f2b, b2f
@@ -623,8 +624,186 @@ def extract(ctx):
     if core.write_if_changed(os.path.join(core.LEAN, "BeyondVerif", "Generated", "FormTables.lean"), "\n".join(t) + "\n"):
         ch.append("Generated/FormTables.lean")
     ctx.edges = edges
+    ctx.sv_tables = sv_tables(svtree, tree, ast.parse(open(FRAMES_PY).read()))
+    if write_sv_tables(ctx.sv_tables):
+        ch.append("Generated/SVTables.lean")
     ch += instantiate.main()
     return ch
+
+
+
+# ---------------------------------------------------------------- StateVector as a state machine: tables read from the AST
+
+FRAMES_PY = os.path.join(core.REPO, "beyond", "frames", "frames.py")
+
+SHAPES = {
+    # (file key, qualified name): source text the model of lean/templates/SVMachine.tpl was written against
+    ("sv", "Infos.__init__"): "self.orb = orb\n",
+    ("sv", "Infos.kep"): "if not hasattr(self, '_kep'):\n    self._kep = self.orb.copy(form='keplerian')\nreturn self._kep\n",
+    ("sv", "Infos.sphe"): "if not hasattr(self, '_sphe'):\n    self._sphe = self.orb.copy(form='spherical')\nreturn self._sphe\n",
+    ("sv", "Infos.mu"): "return self.orb.frame.center.body.mu\n",
+    ("sv", "Infos.r"): "return self.sphe.r\n",
+    ("forms", "Form.__call__"): ("if isinstance(new_form, Form):\n    new_form = new_form.name\ncoord = orbit.copy()\nif new_form != orbit.form.name:\n"
+                                 "    for a, b in self.steps(new_form):\n        name = f'_{a.name.lower()}_to_{b.name.lower()}'\n"
+                                 "        coord = getattr(self, name)(coord, orbit.frame.center.body)\nreturn coord\n"),
+    ("frames", "Frame.transform"): ("new_orb = orbit.copy(form='cartesian')\noffset = self.center.convert_to(orbit.date, new_frame.center, new_frame.orientation)\n"
+                                    "m = self.orientation.convert_to(orbit.date, new_frame.orientation)\nnew_orb[:] = m @ new_orb + offset\n"
+                                    "new_orb._frame = new_frame\nnew_orb.form = orbit.form\nreturn new_orb\n"),
+}
+
+
+def _nodoc(body):
+    return [s for s in body if not (isinstance(s, ast.Expr) and isinstance(s.value, ast.Constant))]
+
+
+def _dump(stmts):
+    return [ast.dump(s) for s in stmts]
+
+
+def _same(stmts, text):
+    return _dump(stmts) == _dump(ast.parse(text).body)
+
+
+def _find_prop(tree, cls, name, kind):
+    """the getter (`kind='getter'`: decorated `@property`) or setter (`@<name>.setter`) of a property of class `cls`"""
+    c = py2lean.find_function(tree, cls)
+    for f in c.body:
+        if isinstance(f, ast.FunctionDef) and f.name == name:
+            decs = [ast.unparse(d) for d in f.decorator_list]
+            if (kind == "getter" and "property" in decs) or (kind == "setter" and f"{name}.setter" in decs):
+                return f
+    raise py2lean.Untranslatable(f"{cls}.{name} ({kind}) not found")
+
+
+def _flatten(stmts):
+    """statements in the order they execute when nothing raises: a `try … finally` contributes its body, then its
+    finally block (handlers / else are not modelled)"""
+    out = []
+    for s in stmts:
+        if isinstance(s, ast.Try):
+            if s.handlers or s.orelse:
+                raise py2lean.Untranslatable("setter: try with handlers / else is not modelled")
+            out += _flatten(s.body) + _flatten(s.finalbody)
+        else:
+            out.append(s)
+    return out
+
+
+def sv_tables(svtree, formstree, framestree):
+    """what the state machine of lean/templates/SVMachine.tpl interprets, read from the current source:
+    the order of the effects inside the `form` setter, the `frame` setter and `copy`, and the two keys of the `infos`
+    property; everything else the machine relies on is checked to have exactly the modelled shape"""
+    trees = {"sv": svtree, "forms": formstree, "frames": framestree}
+    for (k, qn), text in SHAPES.items():
+        fn = py2lean.find_function(trees[k], qn)
+        if not _same(_nodoc(fn.body), text):
+            raise py2lean.Untranslatable(f"{qn} no longer has the modelled shape")
+    # --- infos property
+    fn = _find_prop(svtree, "StateVector", "infos", "getter")
+    body = _nodoc(fn.body)
+    if not (len(body) == 2 and isinstance(body[0], ast.If) and not body[0].orelse and len(body[0].body) == 1 and isinstance(body[1], ast.Return)):
+        raise py2lean.Untranslatable("StateVector.infos: unexpected shape")
+    test = ast.unparse(body[0].test)
+    m = re.fullmatch(r"not hasattr\(self, '([^']+)'\)", test)
+    if m:
+        guard = m.group(1)
+        forms = importlib_forms()
+        if guard in forms._cache_param_names or forms.Form.alt.get(guard, guard) in forms._cache_param_names:
+            raise py2lean.Untranslatable("StateVector.infos: the guard tests the name of an orbital element")
+    else:
+        m = re.fullmatch(r"'([^']+)' not in self\._data(?:\.keys\(\))?", test)
+        if not m:
+            raise py2lean.Untranslatable(f"StateVector.infos: guard `{test}` is not modelled")
+        guard = m.group(1)
+    st = ast.unparse(body[0].body[0])
+    m = re.fullmatch(r"self\._data\['([^']+)'\] = Infos\(self\)", st)
+    if not m:
+        raise py2lean.Untranslatable(f"StateVector.infos: `{st}` is not modelled")
+    store = m.group(1)
+    if ast.unparse(body[1].value) != f"self._data['{store}']":
+        raise py2lean.Untranslatable("StateVector.infos: does not return the stored helper")
+    # --- form setter
+    fn = _find_prop(svtree, "StateVector", "form", "setter")
+    body = _nodoc(fn.body)
+    arg = fn.args.args[1].arg
+    if not (body and _same(body[:1], f"if isinstance({arg}, str):\n    {arg} = get_form({arg})\n")):
+        raise py2lean.Untranslatable("form setter: unexpected head")
+    form_steps = []
+    for s in _flatten(body[1:]):
+        t = ast.unparse(s)
+        if t == f"self.view(np.ndarray)[:] = self._data['form'](self, {arg})":
+            form_steps.append("convert")
+        elif t == f"self._data['form'] = {arg}":
+            form_steps.append("commit")
+        else:
+            raise py2lean.Untranslatable(f"form setter: `{t}` is not modelled")
+    if sorted(form_steps) != ["commit", "convert"]:
+        raise py2lean.Untranslatable(f"form setter: effects {form_steps}")
+    # --- frame setter
+    fn = _find_prop(svtree, "StateVector", "frame", "setter")
+    body = _nodoc(fn.body)
+    arg = fn.args.args[1].arg
+    head = f"old_form = self.form\nold_frame = self.frame\nif isinstance({arg}, str):\n    {arg} = get_frame({arg})\n"
+    tail = f"if self.cov is not None and self.cov.frame == old_frame:\n    self.cov.frame = {arg}\n"
+    if not (len(body) == 5 and _same(body[:3], head) and _same(body[4:], tail) and isinstance(body[3], ast.If) and not body[3].orelse
+            and ast.unparse(body[3].test) == f"{arg} != self.frame"):
+        raise py2lean.Untranslatable("frame setter: unexpected skeleton")
+    frame_steps = []
+    pending = None
+    for s in _flatten(body[3].body):
+        t = ast.unparse(s)
+        m = re.fullmatch(rf"(\w+) = self\.frame\.transform\(self, {arg}\)", t)
+        if t == "self.form = 'cartesian'":
+            frame_steps.append("toCart")
+        elif m:
+            pending = m.group(1)
+            frame_steps.append("transform")
+        elif pending and t == f"self.view(np.ndarray)[:] = {pending}":
+            frame_steps.append("store")
+        elif t == f"self.view(np.ndarray)[:] = self.frame.transform(self, {arg})":
+            frame_steps += ["transform", "store"]
+        elif t == f"self._data['frame'] = {arg}":
+            frame_steps.append("commit")
+        elif t == "self.form = old_form":
+            frame_steps.append("restore")
+        else:
+            raise py2lean.Untranslatable(f"frame setter: `{t}` is not modelled")
+    if sorted(frame_steps) != sorted(["toCart", "transform", "store", "commit", "restore"]):
+        raise py2lean.Untranslatable(f"frame setter: effects {frame_steps}")
+    # --- copy: the two conversions at its end
+    fn = py2lean.find_function(svtree, "StateVector.copy")
+    copy_steps = []
+    for s in _nodoc(fn.body):
+        t = ast.unparse(s)
+        if t == "if frame and frame != self.frame:\n    new_obj.frame = frame":
+            copy_steps.append("frame")
+        elif t == "if form and form != self.form:\n    new_obj.form = form":
+            copy_steps.append("form")
+    if sorted(copy_steps) != ["form", "frame"]:
+        raise py2lean.Untranslatable(f"copy: conversions {copy_steps}")
+    return {"guard": guard, "store": store, "form": form_steps, "frame": frame_steps, "copy": copy_steps}
+
+
+def importlib_forms():
+    import importlib
+    return importlib.import_module("beyond.orbits.forms")
+
+
+def write_sv_tables(t):
+    L = ["/- GENERATED by harness/props/C01.py from beyond/orbits/statevector.py — do not edit. -/", "namespace BeyondVerif.Generated",
+         "/-- the name under which the `infos` property looks for an existing `Infos` helper (`hasattr(self, KEY)` / `KEY in self._data`) -/",
+         f'def infosGuardKey : String := "{t["guard"]}"',
+         "/-- the key of `_data` under which the `infos` property stores the helper it creates -/",
+         f'def infosStoreKey : String := "{t["store"]}"',
+         "/-- effects of the `form` setter in source order: convert = `self.view(np.ndarray)[:] = self._data[\"form\"](self, new_form)`, commit = `self._data[\"form\"] = new_form` -/",
+         "def formSetterSteps : List String := " + lean_str_list(t["form"]),
+         "/-- effects of the `frame` setter (inside `if new_frame != self.frame`) in execution order: toCart = `self.form = \"cartesian\"`, transform = `self.frame.transform(self, new_frame)`, "
+         "store = `self.view(np.ndarray)[:] = …`, commit = `self._data[\"frame\"] = new_frame`, restore = `self.form = old_form` -/",
+         "def frameSetterSteps : List String := " + lean_str_list(t["frame"]),
+         "/-- the conversions at the end of `copy`, in source order -/",
+         "def copySteps : List String := " + lean_str_list(t["copy"]),
+         "end BeyondVerif.Generated"]
+    return core.write_if_changed(os.path.join(core.LEAN, "BeyondVerif", "Generated", "SVTables.lean"), "\n".join(L) + "\n")
 
 
 def _graph_names():
